@@ -1,6 +1,11 @@
 package main
 
 import (
+	"go/types"
+	"go/token"
+	"go/printer"
+	"go/ast"
+	"bytes"
 	"encoding/json"
 	"os/exec"
 	"flag"
@@ -78,6 +83,17 @@ func (e *Engine) generateAll(re *regexp.Regexp) ([]*FuncGen, error) {
 	for _, g := range out {
 		if g != nil {
 			gens = append(gens, g)
+		}
+	}
+	pinPkgs := map[string]bool{}
+	for _, g := range gens {
+		if g.fn != nil && g.fn.Pkg != nil {
+			pinPkgs[g.fn.Pkg.Pkg.Path()] = true
+		}
+	}
+	for _, pin := range e.cs.Pins {
+		if pinPkgs[pin.PkgPath] {
+			gens = append(gens, e.genPin(pin))
 		}
 	}
 	for _, lm := range e.cs.Lemmas {
@@ -205,6 +221,82 @@ func (e *Engine) genLemma(lm *Lemma) (*FuncGen, error) {
 	o := &Obligation{Name: g.fname + "#" + lm.Name, Func: g.fname, Kind: "lemma", Guard: "true", Goal: body, Desc: "lemma " + lm.Name + ": " + lm.Body.String(), Gen: g}
 	g.obls = append(g.obls, o)
 	return g, nil
+}
+
+// normInit: initialiser text with white space and trailing commas removed.
+func normInit(t string) string {
+	t = strings.Join(strings.Fields(t), "")
+	t = strings.ReplaceAll(t, ",}", "}")
+	return t
+}
+
+// initText: the source text of the initialiser of package-level variable name.
+func (e *Engine) initText(pkgPath, name string) (string, bool) {
+	for _, p := range e.pkgs {
+		if p.PkgPath != pkgPath {
+			continue
+		}
+		for _, f := range p.Syntax {
+			for _, d := range f.Decls {
+				gd, ok := d.(*ast.GenDecl)
+				if !ok || gd.Tok != token.VAR {
+					continue
+				}
+				for _, sp := range gd.Specs {
+					vs := sp.(*ast.ValueSpec)
+					for i, n := range vs.Names {
+						if n.Name == name && i < len(vs.Values) {
+							var b bytes.Buffer
+							printer.Fprint(&b, e.fset, vs.Values[i])
+							// constants the initialiser names are part of what is pinned
+							seen := map[string]bool{}
+							ast.Inspect(vs.Values[i], func(nd ast.Node) bool {
+								if id, ok := nd.(*ast.Ident); ok && p.TypesInfo != nil {
+									if c, ok := p.TypesInfo.Uses[id].(*types.Const); ok && c.Pkg() == p.Types && !seen[id.Name] {
+										seen[id.Name] = true
+										fmt.Fprintf(&b, " /* %s = %s */", id.Name, c.Val().ExactString())
+									}
+								}
+								return true
+							})
+							return b.String(), true
+						}
+					}
+				}
+			}
+		}
+	}
+	return "", false
+}
+
+// genPin: an obligation that holds exactly when the initialiser of a pinned
+// package-level variable still reads as the contract file says (decided
+// syntactically, no solver reasoning involved).
+func (e *Engine) genPin(pin Pin) *FuncGen {
+	g := e.NewFuncGen(nil, nil)
+	g.pkg = e.tpkgs[pin.PkgPath]
+	g.fname = shortPath(pin.PkgPath) + ".pin"
+	g.entryHeap = g.newHeap(hEntry)
+	g.alloc0 = g.heapGet(g.entryHeap, "$alloc", "Int")
+	g.ownMod = map[string]bool{}
+	g.paramTerms = map[string]Val{}
+	got, ok := e.initText(pin.PkgPath, pin.Var)
+	goal := "false"
+	desc := fmt.Sprintf("initialiser of %s is the pinned text %s", pin.Var, pin.Text)
+	if ok && normInit(got) == normInit(pin.Text) {
+		goal = "true"
+	} else if ok {
+		desc += " (the source now reads: " + strings.Join(strings.Fields(got), " ") + "); the global facts assumed about it are stale"
+	} else {
+		desc += " (no such initialiser in the source)"
+	}
+	// the goal is a named Boolean fixed by an assertion, so that `true` is not
+	// optimised away before an obligation exists
+	c := g.declare("pin.holds", "Bool")
+	g.assert(fmt.Sprintf("(= %s %s)", c, goal))
+	o := &Obligation{Name: g.fname + "#" + pin.Var, Func: g.fname, Kind: "pin", Guard: "true", Goal: c, Desc: desc, Gen: g}
+	g.obls = append(g.obls, o)
+	return g
 }
 
 func main() {
